@@ -25,6 +25,16 @@ class Unsupported(Undecided):
     pass
 
 
+class ContractRefuted(Undecided):
+    """a contract supplied for the code under proof (a loop invariant) is refuted by the solver: there is a state that satisfies
+    the invariant and the path condition and from which the loop body leaves it. Unlike Unsupported this speaks about the
+    code; `model` is the solver's counter-model as text."""
+
+    def __init__(self, what, model=""):
+        super().__init__(what)
+        self.model = model
+
+
 class Unmediated(Undecided):
     """native code tried to inspect a symbolic value"""
 
@@ -254,6 +264,38 @@ class Path:
         if self._check(g, cond, *ctx) == z3.unsat:
             return z3.unsat
         return self._check(f, cond, *ctx)
+
+    def refute(self, cond, timeout_ms=15000):
+        """a counter-model (text) of  pc ∧ quantifier-free hypotheses ∧ index bounds ⇒ cond,  or None. Only `sat` counts:
+        unknown and unsat give None. Quantified hypotheses are left out, so the caller must only use this for conditions
+        whose proof does not rest on them (definitions of quotient / ceiling constants are in the path condition)."""
+        def quantified(e):
+            todo, seen = [e], set()
+            while todo:
+                x = todo.pop()
+                if x.get_id() in seen:
+                    continue
+                seen.add(x.get_id())
+                if z3.is_quantifier(x):
+                    return True
+                todo.extend(x.children())
+            return False
+        facts = list(self.pc) + [h for h in self.hyps if not quantified(h)] + self._ctx() + [z3.Not(cond)]
+        s = z3.Solver()
+        s.set("timeout", timeout_ms)
+        s.add(facts)
+        import time
+
+        t = time.time()
+        r = s.check()
+        self.solver_seconds += time.time() - t
+        self.solver_calls += 1
+        if r == z3.sat:
+            m = s.model()
+            return ", ".join(f"{d.name()}={m[d]}" for d in sorted(m.decls(), key=lambda d: d.name()) if d.arity() == 0)[:1500]
+        if r == z3.unknown and nia_portfolio(facts, timeout_ms) == z3.sat:
+            return "(model not printed: decided by the z3 binary)"
+        return None
 
     def assume(self, cond):
         self.pc.append(cond)
